@@ -7,7 +7,11 @@ const B64: &[u8; 64] = b"ABCDEFGHIJKLMNOPQRSTUVWXYZabcdefghijklmnopqrstuvwxyz012
 pub fn b64u(data: &[u8]) -> String {
 	let mut out = String::with_capacity((data.len() * 4 + 2) / 3);
 	for chunk in data.chunks(3) {
-		let b = [chunk[0], *chunk.get(1).unwrap_or(&0), *chunk.get(2).unwrap_or(&0)];
+		let b = [
+			chunk[0],
+			*chunk.get(1).unwrap_or(&0),
+			*chunk.get(2).unwrap_or(&0),
+		];
 		let n = ((b[0] as u32) << 16) | ((b[1] as u32) << 8) | b[2] as u32;
 		out.push(B64[(n >> 18) as usize & 63] as char);
 		out.push(B64[(n >> 12) as usize & 63] as char);
